@@ -161,6 +161,34 @@ Definition search (v : view) (q : query) : list (N * repo * doc) :=
   | q' => search_from (v_repos v) q' (v_docs v) 0
   end.
 
+(** the document loop under SearchOptions.ShardRepoMaxMatchCount = [lim] (index/eval.go, skip loop): guard order
+    repository tombstone, file tombstone ([visible]; the tenant guard between them is C23's subject, Model/TenantLoop.v),
+    then "skip documents over ShardRepoMaxMatchCount": [lim > 0 && repoMatchCount >= lim && repoID == lastRepoID];
+    an accepted document of another repository than [last] resets the count; a file match adds its number of
+    line / chunk matches [wt i] (an input: any function).  [last]/[rmc] = lastRepoID / repoMatchCount. *)
+Fixpoint search_from_lim (rs : list repo) (q : query) (lim : N) (wt : N -> N) (ds : list doc) (i : N)
+         (last : nat) (rmc : N) : list (N * repo * doc) :=
+  match ds with
+  | [] => []
+  | d :: t =>
+      match visible rs d with
+      | None => search_from_lim rs q lim wt t (N.succ i) last rmc
+      | Some r =>
+          if (0 <? lim)%N && ((lim <=? rmc)%N && Nat.eqb (d_repo d) last)
+          then search_from_lim rs q lim wt t (N.succ i) last rmc
+          else
+            let rmc0 := if Nat.eqb last (d_repo d) then rmc else 0%N in
+            if eval q r d then (i, r, d) :: search_from_lim rs q lim wt t (N.succ i) (d_repo d) (rmc0 + wt i)%N
+            else search_from_lim rs q lim wt t (N.succ i) (d_repo d) rmc0
+      end
+  end.
+
+Definition search_lim (v : view) (q : query) (lim : N) (wt : N -> N) : list (N * repo * doc) :=
+  match simplify (v_repos v) q with
+  | QConst false => []
+  | q' => search_from_lim (v_repos v) q' lim wt (v_docs v) 0 0%nat 0%N
+  end.
+
 (** indexData.List: constant true lists every alive repository, constant false none, otherwise the
     alive repositories whose NAME occurs among the search results *)
 Definition list_repos (v : view) (q : query) : list repo :=
@@ -222,7 +250,11 @@ Definition repo_eqb (a b : repo) : bool :=
 
 (** observation after an operation: error?, reloaded metadata (None = unreadable), tmp files left,
     and for some queries the positions of the documents found and the ids of the repositories listed *)
-Definition qobs := (cquery * list N * list N)%type.
+Definition qobs := (cquery * list N * list N * (N * list (N * N) * list N))%type.
+(** ... * (ShardRepoMaxMatchCount, [(position, #matches of its file match in the unlimited search)], positions found by
+    the limited search IN RESULT ORDER) *)
+Fixpoint wt_of (l : list (N * N)) (i : N) : N :=
+  match l with [] => 1%N | (k, v) :: t => if N.eqb k i then v else wt_of t i end.
 Definition opT := (N * bool * N * (bool * option (list repoT) * N * list qobs))%type.
 Definition c17case := (option (list repoT * list docT) * option (list repoT) * list qobs * list opT)%type.
 
@@ -230,12 +262,13 @@ Definition fault_of (n : N) : fault :=
   match n with 0%N => NoFault | 1%N => CreateTempFails | _ => RenameFails end.
 
 Definition qobs_ok (f : fs) (o : qobs) : bool :=
-  let '(c, found, listed) := o in
+  let '(c, found, listed, (lim, wts, found_lim)) := o in
   match load f with
   | None => false
   | Some v =>
       list_eqb N.eqb (map (fun x => fst (fst x)) (search v (denote c))) found &&
-      list_eqb N.eqb (map r_id (list_repos v (denote c))) listed
+      list_eqb N.eqb (map r_id (list_repos v (denote c))) listed &&
+      list_eqb N.eqb (map (fun x => fst (fst x)) (search_lim v (denote c) lim (wt_of wts))) found_lim
   end.
 
 Definition obs_ok (f : fs) (err : bool) (reload : option (list repoT)) (tmps : N) (qs : list qobs) : bool :=
